@@ -5,7 +5,21 @@ from vlib import Case, Stream, BUILD, model_cmd
 
 ID = "C05"
 LEAN_MODULES = ["HgVerif.Props.C05"]
-THEOREMS = []   # filled below
+_P = "HgVerif.Slots."
+THEOREMS = [_P + n for n in [
+    # TSS
+    "tss_inv_reachable", "tss_slot_inv_reachable", "tss_delta_canonical", "tss_delta_coherent",
+    "tss_add_remove_no_trace", "tss_remove_add_no_trace", "tss_times", "tss_ghost_is_cycle_start",
+    "tss_window_is_cycle", "tss_ghost_eq_fold", "tss_value_eq_fold", "GSet.run_x",
+    # TSD (key level) + ceiling items
+    "tsd_inv_reachable", "tsd_slot_inv_reachable", "tsd_delta_canonical", "tsd_delta_coherent",
+    "tsd_modified_subset_value", "tsd_removed_readable", "tsd_set_erase_no_trace", "tsd_erase_set_no_trace",
+    "tsd_times", "tsd_window_is_cycle", "tsd_ghost_eq_fold", "tsd_value_eq_fold", "GDict.run_x",
+    # TSD value level: partial + the two kernel-checked counterexamples to the full statements
+    "tsd_value_delta_partial", "tsd_value_delta_incoherent", "tsd_keyset_incoherent",
+    # tick window
+    "window_last_n", "window_evicted", "GWin.run_w",
+]]
 CXX_TARGETS = ["hgv_slots"]
 RULE = ("mutation histories over real standalone TSOutput objects of TSS<Int>, TSD<Int,TS<Int>> and tick TSW<Int> with an "
         "explicit evaluation time per op; a case is non-trivial when one cycle mutates the same key at least twice "
@@ -262,7 +276,7 @@ def _corpus():
 
 def streams(rng, tier, seed):
     quick = tier == "quick"
-    n = 260 if quick else 8000
+    n = 220 if quick else 8000
     mo = 40 if quick else 90
     impl = [os.path.join(BUILD, "hgv_slots")]
     model = model_cmd("C05")
@@ -270,8 +284,8 @@ def streams(rng, tier, seed):
     tss = [gen_tss(rng, i, mo) for i in range(n)]
     tsw = [gen_tsw(rng, i, 30 if quick else 60) for i in range(n // 2)]
     tsd = [gen_tsd(rng, i, mo, "clean") for i in range(n)]
-    rewrite = [gen_tsd(rng, i, 14 if quick else 30, "rewrite") for i in range(40 if quick else 400)]
-    late = [gen_tsd(rng, i, 14 if quick else 30, "late") for i in range(40 if quick else 400)]
+    rewrite = [gen_tsd(rng, 2 * i, 14 if quick else 30, "rewrite") for i in range(30 if quick else 400)]
+    late = [gen_tsd(rng, 2 * i + 1, 14 if quick else 30, "late") for i in range(30 if quick else 400)]
     if quick:
         tss += exhaustive_tss(3, len(tss))
         tsd += exhaustive_tsd(3, len(tsd))
@@ -282,10 +296,9 @@ def streams(rng, tier, seed):
         Stream("tss", impl, model, corpus.get("tss", []) + tss),
         Stream("tsw", impl, model, corpus.get("tsw", []) + tsw),
         Stream("tsd", impl, model, corpus.get("tsd", []) + tsd),
-        # histories that hit the two defects found in TSDSlotStorage (see LEVEL_NOTE); kept apart so that the
-        # streams above stay a clean oracle for everything else
-        Stream("tsd-rewrite", impl, model, corpus.get("tsdrewrite", []) + rewrite),
-        Stream("tsd-late", impl, model, corpus.get("tsdlate", []) + late),
+        # histories that hit the two defects found in TSDSlotStorage (see LEVEL_NOTE), alternating; kept apart so
+        # that the streams above stay a clean oracle for everything else
+        Stream("tsd-defects", impl, model, corpus.get("tsddefects", []) + [c for pair in zip(rewrite, late) for c in pair]),
     ]
 
 
@@ -464,7 +477,10 @@ def _mon_tss(case, out):
                 vv = set(_ints(f["vv"])); d = _delta_tss(f["d"])
                 lmt, mod, valid, n = int(f["lmt"]), f["mod"] == "1", f["valid"] == "1", int(f["n"])
             except Exception as e:      # noqa
-                res.bad.append("unreadable dump %r (%s)" % (o, e))
+                if o.startswith("err:"):
+                    res.bad.append("reading the output at t=%d threw (%s): value / delta not readable" % (t, o))
+                else:
+                    res.bad.append("unreadable dump %r (%s)" % (o, e))
                 return res
             if t < cur_t:
                 continue
@@ -607,7 +623,10 @@ def _mon_tsd(case, out):
                 vv = _items(f["vv"]); d = _delta_tsd(f["d"])
                 lmt, mod, n = int(f["lmt"]), f["mod"] == "1", int(f["n"])
             except Exception as e:      # noqa
-                res.bad.append("unreadable dump %r (%s)" % (o, e))
+                if o.startswith("err:"):
+                    res.bad.append("reading the output at t=%d threw (%s): value / delta not readable" % (t, o))
+                else:
+                    res.bad.append("unreadable dump %r (%s)" % (o, e))
                 return res
             if t < cur_t:
                 continue
@@ -640,15 +659,16 @@ def _mon_tsd(case, out):
                     applied = {k: x for k, x in prev_pub.items() if k not in d[0]}
                     applied.update(d[1])
                     if applied != v:
-                        res.finding.append("tsd-delta t=%d: value %s != previous value %s with delta (removed %s, modified %s) applied = %s"
+                        res.finding.append("tsd-delta: value differs from the previous value with the tick's delta applied: t=%d value %s, "
+                                           "previous %s, delta (removed %s, modified %s) gives %s"
                                            % (t, v, prev_pub, sorted(d[0]), d[1], applied))
                 # the key_set() projection read as a TSS
                 if (a or r) and (klmt != t or ka != a or kr != r):
-                    res.finding.append("tsd-keyset t=%d: dictionary delta +%s -%s but key_set() lmt=%d added=%s removed=%s"
-                                       % (t, sorted(a), sorted(r), klmt, sorted(ka), sorted(kr)))
+                    res.finding.append("tsd-keyset: key_set() projection is not coherent with the dictionary delta: t=%d dictionary delta +%s -%s but key_set() "
+                                       "lmt=%d added=%s removed=%s" % (t, sorted(a), sorted(r), klmt, sorted(ka), sorted(kr)))
                 elif klmt == t and kv != (prev_live - kr) | ka:
-                    res.finding.append("tsd-keyset t=%d: key_set() value %s != previous %s with its delta (+%s -%s) applied"
-                                       % (t, sorted(kv), sorted(prev_live), sorted(ka), sorted(kr)))
+                    res.finding.append("tsd-keyset: key_set() projection is not coherent with the dictionary delta: t=%d key_set() value %s != previous %s "
+                                       "with its delta (+%s -%s) applied" % (t, sorted(kv), sorted(prev_live), sorted(ka), sorted(kr)))
                 if a:
                     res.feats.add("delta-added")
                 if r:
@@ -720,7 +740,10 @@ def _mon_tsw(case, out):
                 n, full, valid, allvalid = int(f["n"]), f["full"] == "1", f["valid"] == "1", f["allvalid"] == "1"
                 mod, dl = f["mod"] == "1", int(f["lmt"])
             except Exception as e:      # noqa
-                res.bad.append("unreadable dump %r (%s)" % (o, e))
+                if o.startswith("err:"):
+                    res.bad.append("reading the output at t=%d threw (%s): value / delta not readable" % (t, o))
+                else:
+                    res.bad.append("unreadable dump %r (%s)" % (o, e))
                 return res
             if t < lmt:
                 continue
